@@ -229,6 +229,8 @@ def explore_sharded(U, rep, wrapper, shards, cap, batch, max_depth=4):
   I = new_interp(U.repo)
   f = U.func('%s.%s.insert' % (RB, wrapper))
   q = make_queue(I, 'Queue', cap, batch, cyclic=False)
+  # the host has MORE devices than the buffer is sharded over (legal: local_device_count / a mesh axis subset)
+  I.extern_overrides = {'jax.local_device_count': lambda *a, **k: shards + 2, 'jax.device_count': lambda *a, **k: shards + 2}
   if wrapper == 'PmapWrapper':
     w = I.apply(ClsRef(RB, load(RB)['classes'][wrapper]), [q], {'local_device_count': shards})
   else:
@@ -282,6 +284,16 @@ def explore_sharded(U, rep, wrapper, shards, cap, batch, max_depth=4):
             return
       except Raised:
         problems.append((tr2, 'sharded %s raised although every shard accepts it' % op))
+        return
+      # size() of the sharded buffer == the records still available, summed over the shards
+      try:
+        size = safe_call(I, w, 'size', [st2])
+        size = sc(asarr(size).ravel()[0]) if not isinstance(size, (int, np.integer)) else Rat.lift(int(size))
+        if not (size.is_const() and int(size.constval()) == sum(m.available() for m in ms)):
+          problems.append((tr2, 'size() reports %r, the shards hold %d available records' % (size, sum(m.available() for m in ms))))
+          return
+      except Raised:
+        problems.append((tr2, 'size() raised'))
         return
       for d in range(shards):
         data = asarr(st2.f['data'])[d][:, 0]
